@@ -77,7 +77,15 @@ pub fn schedules(cfg: &DCfg, n: usize, positions: &[usize], flush_positions: &[u
         }
     }
     // two deviations: split + flush at a later split; flush twice; flush starved of output
-    if let (Some(&a), Some(&b)) = (flush_positions.first(), flush_positions.last()) {
+    // (the first position and, when that is 0, also the first position with some input before it)
+    let mut firsts: Vec<usize> = flush_positions.first().copied().into_iter().collect();
+    if let Some(&p) = flush_positions.iter().find(|&&x| x > 0) {
+        if !firsts.contains(&p) {
+            firsts.push(p);
+        }
+    }
+    for a in firsts {
+        let Some(&b) = flush_positions.last() else { continue };
         if a < b && b <= n {
             for f in [Z_SYNC_FLUSH, Z_FULL_FLUSH, Z_PARTIAL_FLUSH] {
                 v.push(DSched { steps: vec![feed(a, AMPLE, Z_NO_FLUSH), feed(b - a, AMPLE, f)], tail_room: AMPLE });
@@ -88,6 +96,21 @@ pub fn schedules(cfg: &DCfg, n: usize, positions: &[usize], flush_positions: &[u
             let (l, st) = targets[0];
             v.push(DSched { steps: vec![feed(a, AMPLE, Z_SYNC_FLUSH), DStep::Params { level: l, strategy: st, room: AMPLE }, feed(b - a, AMPLE, Z_BLOCK)], tail_room: AMPLE });
             v.push(DSched { steps: vec![feed(a, 3, Z_NO_FLUSH), DStep::Params { level: l, strategy: st, room: 2 }], tail_room: 7 });
+        }
+    }
+    // flush escalation / de-escalation with no new input: after a flush of kind a at the first flush position, a
+    // call with no input and a flush of kind b, for every ordered pair (the second call must carry out b when b
+    // ranks above a; see the driver's buffer-error rule)
+    if n <= 4096 {
+        if let Some(&a) = flush_positions.iter().find(|&&x| x > 0 && x <= n).or(flush_positions.first()) {
+            let kinds = [Z_NO_FLUSH, Z_BLOCK, Z_PARTIAL_FLUSH, Z_SYNC_FLUSH, Z_FULL_FLUSH];
+            for fa in kinds {
+                for fb in kinds {
+                    if fa != fb && fb != Z_NO_FLUSH {
+                        v.push(DSched { steps: vec![feed(a.min(n), AMPLE, fa), feed(0, AMPLE, fb)], tail_room: AMPLE });
+                    }
+                }
+            }
         }
     }
     // two parameter changes (through stored and back / away and back) with data in between, and a parameter
@@ -128,6 +151,12 @@ pub struct Fams {
     pub shape_sets: Vec<(Vec<DCfg>, Vec<Named>, usize, usize)>,
     pub big_cfgs: Vec<DCfg>,
     pub big_inputs: Vec<Named>,
+    /// every input length 0..=N of a few data kinds (exact-size alignments of the pending buffer and of the bit
+    /// buffer at the end of the stream), small window and memLevel 1
+    pub sweep_cfgs: Vec<DCfg>,
+    pub sweep_inputs: Vec<Named>,
+    pub align_cfgs: Vec<DCfg>,
+    pub align_inputs: Vec<Named>,
     pub rich: bool,
 }
 
@@ -214,7 +243,47 @@ pub fn build(quick: bool) -> Fams {
         big_inputs.push(Named { name: "text(200000)".into(), data: text(5, 200_000) });
         big_inputs.push(Named { name: "ninebit(65537)".into(), data: nine_bit(65_537) });
     }
-    Fams { tiny_inputs: tiny_set(quick), tiny_cfgs, shape_sets, big_cfgs, big_inputs, rich: !quick }
+    let mut sweep_cfgs = vec![];
+    for level in 0..=9 {
+        sweep_cfgs.push(DCfg { level, strategy: 0, wbits: 9, mem_level: 1, wrap: Wrap::Zlib });
+    }
+    for (level, strategy, wrap) in [(6, 1, Wrap::Raw), (6, 2, Wrap::Raw), (6, 3, Wrap::Gzip), (6, 4, Wrap::Raw), (1, 4, Wrap::Gzip), (1, 0, Wrap::Raw), (9, 0, Wrap::Gzip)] {
+        sweep_cfgs.push(DCfg { level, strategy, wbits: 9, mem_level: 1, wrap });
+    }
+    if !quick {
+        for level in [1, 4, 6, 8] {
+            sweep_cfgs.push(DCfg { level, strategy: 0, wbits: 10, mem_level: 2, wrap: Wrap::Raw });
+        }
+    }
+    let top = if quick { 1100 } else { 2300 };
+    let base7 = noise7(31, top);
+    let base_t = text(23, top);
+    let base_m: Vec<u8> = noise7(5, top).iter().enumerate().map(|(i, &b)| if i % 100 >= 95 { 144 + b % 100 } else { b }).collect();
+    let mut sweep_inputs = vec![];
+    for n in 0..=top {
+        sweep_inputs.push(Named { name: format!("noise7[..{n}]"), data: base7[..n].to_vec() });
+        sweep_inputs.push(Named { name: format!("text[..{n}]"), data: base_t[..n].to_vec() });
+        if !quick || n % 2 == 0 {
+            sweep_inputs.push(Named { name: format!("noise7+ninebit[..{n}]"), data: base_m[..n].to_vec() });
+        }
+    }
+    // every bit alignment of the end of the stream for every length: k = 1..7 nine-bit literals in front of
+    // 8-bit noise (static codes: 8n + k bits), on a few configurations only
+    let mut align_inputs = vec![];
+    for k in 1..=7usize {
+        for n in k..=top {
+            if quick && n > 1100 {
+                break;
+            }
+            let mut d = base7[..n].to_vec();
+            for b in d.iter_mut().take(k) {
+                *b = 0xF0 | (*b & 0x0f);
+            }
+            align_inputs.push(Named { name: format!("{k}xninebit+noise7[..{n}]"), data: d });
+        }
+    }
+    let align_cfgs: Vec<DCfg> = [(1, 0, Wrap::Zlib), (1, 4, Wrap::Raw), (2, 0, Wrap::Raw), (6, 4, Wrap::Zlib), (9, 2, Wrap::Raw)].iter().map(|&(level, strategy, wrap)| DCfg { level, strategy, wbits: 9, mem_level: 1, wrap }).collect();
+    Fams { tiny_inputs: tiny_set(quick), tiny_cfgs, shape_sets, big_cfgs, big_inputs, sweep_cfgs, sweep_inputs, align_cfgs, align_inputs, rich: !quick }
 }
 
 fn level_class(level: i32) -> i32 {
@@ -247,13 +316,15 @@ pub struct Sel {
     pub tiny: bool,
     pub shapes: bool,
     pub big: bool,
+    /// the every-length sweep
+    pub sweep: bool,
     /// keep only every k-th (cfg,input) row of the shape family (1 = all); rows are still complete
     pub shape_cfg_stride: usize,
 }
 
 impl Sel {
     pub fn all() -> Sel {
-        Sel { tiny: true, shapes: true, big: true, shape_cfg_stride: 1 }
+        Sel { tiny: true, shapes: true, big: true, sweep: true, shape_cfg_stride: 1 }
     }
 }
 
@@ -261,7 +332,7 @@ impl Sel {
 pub fn for_each<F: FnMut(&mut Ctx, &DItem)>(ctx: &mut Ctx, fams: &Fams, sel: Sel, mut f: F) {
     // development aid only (never set by ./check): restrict to one family for timing
     let only = std::env::var("ZVERIF_ONLY_FAM").ok();
-    let sel = Sel { tiny: sel.tiny && only.as_deref().map_or(true, |o| o == "tiny"), shapes: sel.shapes && only.as_deref().map_or(true, |o| o == "shape"), big: sel.big && only.as_deref().map_or(true, |o| o == "big"), ..sel };
+    let sel = Sel { tiny: sel.tiny && only.as_deref().map_or(true, |o| o == "tiny"), shapes: sel.shapes && only.as_deref().map_or(true, |o| o == "shape"), big: sel.big && only.as_deref().map_or(true, |o| o == "big"), sweep: sel.sweep && only.as_deref().map_or(true, |o| o == "sweep"), ..sel };
     if sel.tiny {
         for inp in &fams.tiny_inputs {
             let n = inp.data.len();
@@ -296,6 +367,31 @@ pub fn for_each<F: FnMut(&mut Ctx, &DItem)>(ctx: &mut Ctx, fams: &Fams, sel: Sel
                     for (k, sched) in scheds.iter().enumerate() {
                         f(ctx, &DItem { fam: "shape", cfg: *cfg, inp, sched, sched_idx: k });
                     }
+                }
+            }
+        }
+    }
+    if sel.sweep {
+        let scheds: Vec<DSched> = vec![
+            DSched::one_shot(),
+            DSched { steps: vec![], tail_room: 1 },
+            DSched { steps: vec![], tail_room: 7 },
+            DSched { steps: vec![], tail_room: 16 },
+            DSched { steps: vec![], tail_room: 100 },
+            DSched { steps: vec![feed(usize::MAX / 2, AMPLE, Z_SYNC_FLUSH)], tail_room: AMPLE },
+            DSched { steps: vec![feed(usize::MAX / 2, 16, Z_NO_FLUSH)], tail_room: 16 },
+        ];
+        for inp in &fams.sweep_inputs {
+            for cfg in &fams.sweep_cfgs {
+                for (k, sched) in scheds.iter().enumerate() {
+                    f(ctx, &DItem { fam: "sweep", cfg: *cfg, inp, sched, sched_idx: k });
+                }
+            }
+        }
+        for inp in &fams.align_inputs {
+            for cfg in &fams.align_cfgs {
+                for (k, sched) in scheds.iter().enumerate() {
+                    f(ctx, &DItem { fam: "sweep", cfg: *cfg, inp, sched, sched_idx: k });
                 }
             }
         }
